@@ -278,7 +278,7 @@ class DictToClass(Contract):
         return VOpaque(fresh("rebuilt_object", U))
 
     def ensures(self, E, old, st, a, result):
-        if E.cur_contract is not self:
+        if E.cur_contract is not self or getattr(E, "at_call_site", False):      # (the nested call for a wrapped exception is a call site too)
             return []
         built = [e for e in st.events if e[0] == "construct"]
         made = [e for e in st.events if e[0] == "call" and e[1].endswith("make_exception")]
